@@ -509,7 +509,9 @@ Inductive oevent :=
 | OEmit (c v : nat)           (* service sent v on its channel c *)
 | OEnd (c : nat)              (* service closed its channel c *)
 | OHandler (c : nat)          (* handler called, answers with channel c *)
-| OStop (k : nat).            (* the service saw the stop channel of request k closed *)
+| OStop (k : nat)             (* the service saw the stop channel of request k closed *)
+| OParked                     (* a goroutine dump showed the reader parked in its send: clientInputs full *)
+| OWriterGone.                (* a goroutine dump showed that the write loop has returned *)
 
 Definition cmsg_eqb (a b : cmsg) : bool :=
   match a, b with
@@ -697,6 +699,18 @@ Definition event_steps (fx : fixes) (s : st) (e : oevent) : list st :=
       match nth_error (reqs (pc s)) k with
       | Some r => if stp r then (if crashed s then [] else [s]) else []
       | None => []
+      end
+  | OParked =>
+      match rd (wk s) with
+      | RHave _ =>
+          if (cin_cap <=? length (cin (wk s))) && negb (cin_closed (wk s)) &&
+             negb (f19 fx && done (wk s)) && negb (crashed s) then [s] else []
+      | _ => []
+      end
+  | OWriterGone =>
+      match wr (wk s) with
+      | WExit => if crashed s then [] else [s]
+      | _ => []
       end
   end.
 
